@@ -56,7 +56,27 @@ def check(m, c, label):
         bad.append(f"{label}: second call added {m.n_atoms - n1} more")
 
 
-if w.get("op") == "count":
+if w.get("op") == "mean_plane":
+    from molli.math import mean_plane
+    rng = np.random.default_rng(3)
+    for t in range(200):
+        n = int(rng.integers(3, 7))
+        # points near a plane of general orientation
+        nrm = rng.normal(size=3)
+        nrm /= np.linalg.norm(nrm)
+        u = np.cross(nrm, rng.normal(size=3))
+        u /= np.linalg.norm(u)
+        v = np.cross(nrm, u)
+        pts = rng.normal(size=3) * 3 + np.array([a * u + b * v for a, b in rng.uniform(-2, 2, size=(n, 2))]) + rng.normal(size=(n, 3)) * 1e-6
+        keep = pts.copy()
+        got = np.asarray(mean_plane(pts))
+        if got.shape != (3,) or abs(np.linalg.norm(got) - 1) > 1e-6 or abs(abs(float(got @ nrm)) - 1) > 1e-4:
+            bad.append(f"mean_plane of {n} points in the plane with normal {np.round(nrm, 3).tolist()} returned {np.round(got, 3).tolist()}")
+            break
+        if not np.array_equal(pts, keep):
+            bad.append("mean_plane modified its argument")
+            break
+elif w.get("op") == "count":
     g = w.get("group") if w.get("group") in CENTRES else 14
     m, c = build(CENTRES[g], int(w.get("neighbours", 0)), btypes=w.get("btypes"), fc=int(w.get("fc") or 0), spin=int(w.get("spin") or 0))
     check(m, c, f"{CENTRES[g]} with {w.get('neighbours')} neighbours")
